@@ -869,6 +869,18 @@ impl LocalDestination {
             .parent()
             .ok_or_else(|| LocalDestinationErrorKind::FileDoesNotHaveParent(filename.clone()))?;
         fs::create_dir_all(dir).map_err(LocalDestinationErrorKind::DirectoryCreationFailed)?;
+        // when restoring over an existing destination the link (or another file of that name) is already there
+        match fs::remove_file(&filename) {
+            Ok(()) => {}
+            Err(err) if err.kind() == std::io::ErrorKind::NotFound => {}
+            Err(err) => {
+                return Err(LocalDestinationErrorKind::HardLinkingFailed {
+                    source_path,
+                    filename,
+                    source: err,
+                });
+            }
+        }
         fs::hard_link(&source_path, &filename).map_err(|err| {
             LocalDestinationErrorKind::HardLinkingFailed {
                 source_path,
